@@ -38,7 +38,8 @@ ASSUMPTIONS = [
     "complex step: the imaginary part of interpolate(x + i*h*e_k)/h is the exact derivative of the returned value "
     "for the pure-arithmetic table formulas (and for akima, whose abs is complex-step safe); h = 1e-30 * cell size",
     "scipy_* drop the imaginary part, so they are judged by 4th-order central differences at steps 1e-2, 1e-3, 1e-4 "
-    "of the cell; the estimate is used only when the last two agree (gap <= 1e-6 of the derivative scale) and the "
+    "of the cell; the estimate is used only when the last two agree (gap <= 1e-6 of the estimate or 4x the round-off "
+    "floor) and the "
     "tolerance is 10*gap + round-off floor; otherwise the case is counted inconclusive",
     "tolerance for derivatives = 256*eps*A*F/h_min(axis): the C15 value tolerance divided by the smallest spacing of "
     "the axis (A, F as in C15)",
@@ -48,15 +49,20 @@ ASSUMPTIONS = [
     "partials the same way; evaluate_spline takes complex values, the components are run in complex-step mode); "
     "a table (or query point) where conj-symmetry of the complex step fails (an abs() argument of the Akima weights is "
     "exactly zero: the step direction decides the branch) is counted as a kink and not judged; "
-    "tables with two exactly equal consecutive slopes (constant / linear data) are discarded for the akima d/dvalues "
-    "clause: both Akima weights vanish there and the scheme is not differentiable in the table values (directional "
+    "for akima the constant direction is judged separately and without any step: interp(V + c) - interp(V) = c exactly "
+    "(translation equivariance of the returned values), so the rows of the table Jacobian must sum to "
+    "(interp(V+c)-interp(V))/c; tables whose smallest relative slope difference is below 1e-9 (weights at round-off "
+    "level) are judged in that direction only, between 1e-9 and 1e-3 the tolerance grows like 1e-3/gap; "
+    "tables with two exactly equal consecutive slopes (constant / linear data) are likewise judged in the constant "
+    "direction only: both Akima weights vanish there and the scheme is not differentiable in the table values (directional "
     "derivatives exist but are not linear in the direction), so no Jacobian can satisfy the property",
     "fixed-dimension methods do not support training_data_gradients (documented RuntimeError): not generated",
 ]
 BOUND = {'quick': '16 shards x 220 Hypothesis cases', 'thorough': '32 shards x 8000 Hypothesis cases'}
 MIN_CLASS_FRACTION = {'judged': 0.6, 'kind:table': 0.3, 'kind:train': 0.1, 'kind:spline': 0.1,
                       'kind:splinecomp': 0.05, 'dim3': 0.05, 'oracle:cs': 0.3, 'oracle:fd': 0.03,
-                      'oracle:linearity': 0.15, 'oracle:cs-values': 0.02}
+                      'oracle:linearity': 0.15, 'oracle:cs-values': 0.02,
+                      'oracle:constant-direction': 0.02}
 
 EPS = base.EPS
 TOL_K = 256.0
@@ -149,9 +155,19 @@ def known_akima4(case):
     return False
 
 
+def known_bsplines_square(case):
+    """F25: bsplines with as many interpolation points as vec_size (>= 2): InterpND.spline_gradient tells akima's
+    per-row derivative array from the shared bspline Jacobian by `d_dvalues.shape[0] == vec_size`."""
+    return (case['kind'] in ('spline', 'splinecomp') and case['method'] == 'bsplines' and
+            len(case['y']) >= 2 and len(case['x_interp']) == len(case['y']))
+
+
 def _exc_sig(e, where, case=None):
     if case is not None and isinstance(e, UnboundLocalError) and "m5" in str(e) and known_akima4(case):
         return 'F18-akima-4-point-grid-middle-cell:UnboundLocalError'
+    if (case is not None and isinstance(e, ValueError) and 'setting an array element with a sequence' in str(e) and
+            known_bsplines_square(case)):
+        return 'F25-bsplines-n_interp-equals-vec_size:ValueError'
     return core.repo_frame_signature(e, prefix=where) or f"{where}:{type(e).__name__}"
 
 
@@ -171,6 +187,28 @@ def has_equal_slopes(axes, table):
         if m.shape[-1] >= 2 and np.any(m[..., 1:] == m[..., :-1]):
             return True
     return False
+
+
+def slope_rel_gap(axes, table):
+    """Smallest relative difference of two consecutive slopes along any grid line of the table (exactly equal pairs
+    are ignored here: has_equal_slopes handles them).  The Akima weights are these differences; when they sink to
+    round-off level (gap ~ 1e-16, e.g. linear data on np.linspace control points) the weight ratios are noise."""
+    table = np.asarray(table, dtype=float)
+    gap = np.inf
+    for i, g in enumerate(axes):
+        t = np.moveaxis(table, i, -1)
+        m = np.diff(t, axis=-1) / np.diff(np.asarray(g, dtype=float))
+        if m.shape[-1] < 2:
+            continue
+        d = np.abs(m[..., 1:] - m[..., :-1])
+        mag = np.maximum(np.abs(m[..., 1:]), np.abs(m[..., :-1]))
+        ok = (d > 0) & (mag > 0)
+        if ok.any():
+            gap = min(gap, float(np.min(d[ok] / mag[ok])))
+    return gap
+
+
+NEAR_COLLINEAR = 1e-9
 
 
 def table_of(case):
@@ -309,7 +347,7 @@ def check_table(case, res, cls):
 # d/dvalues judged through an evaluation function and a Jacobian
 # ---------------------------------------------------------------------------------------------
 
-def judge_values(res, cls, label, method, evalf, J0, V, D, A, Fv, Fd, evalc):
+def judge_values(res, cls, label, method, evalf, J0, V, D, A, Fv, Fd, evalc, rho=np.inf, collinear=False):
     """evalf(values) -> outputs (flat, length q); J0 = d outputs/d values at V, shape (q, V.size); evalc = evalf for
     complex values.  Linear methods: exact linearity with the Jacobian as coefficients.  akima (nonlinear in the
     table): complex step in the table direction D."""
@@ -329,10 +367,38 @@ def judge_values(res, cls, label, method, evalf, J0, V, D, A, Fv, Fd, evalc):
                      f"{label} {method}: output {j}: interp(V+D)-interp(V) = {(f1 - f0)[j]!r} but (d/dvalues).D = "
                      f"{JD[j]!r} (|diff| {err[j]:.3g} > tol {tol:.3g})")
         return judged
+    # (i) constant direction: every interpolant is translation equivariant, interp(V + c) = interp(V) + c, so along
+    # D = 1 the returned value is exactly affine and the finite quotient below IS its derivative (no step issue).
+    c = Fv if Fv > 1e-200 else 1.0
+    q1 = (evalf(V + c) - evalf(V)) / c
+    rows = J0.reshape(J0.shape[0], -1).sum(axis=1)
+    amp = max(1.0, 1e-3 / rho) if rho >= NEAR_COLLINEAR else 1.0
+    tol1 = TOL_K * EPS * A * amp * (1.0 + J0.reshape(J0.shape[0], -1).shape[1])
+    err1 = np.abs(rows - q1)
+    _stat(f"const/{label}/{method}", err1, tol1)
+    judged += err1.size
+    cls.append('oracle:constant-direction')
+    if not (err1 <= tol1).all():
+        j = int(np.argmax(~(err1 <= tol1)))
+        sig = f"dvalues-constant-direction:{label}:{method}"
+        if rho < NEAR_COLLINEAR:
+            sig = 'F24-akima-table-gradient-noise-near-collinear:constant-direction'
+        res.fail(sig, f"{label} akima: output {j}: sum_j d out/d value_j = {rows[j]!r} but (interp(V+c)-interp(V))/c = "
+                      f"{q1[j]!r} for c = {c!r} (smallest relative slope difference of the table {rho:.3g}; "
+                      f"tol {tol1:.3g})")
+    if collinear:
+        # both Akima weights vanish somewhere: the scheme is not differentiable in the table values there
+        cls.append('akima_collinear_generic_direction_skipped')
+        return judged
+    if rho < NEAR_COLLINEAR:
+        # generic directions: the weight ratios are round-off noise, the derivative is not defined to any accuracy
+        cls.append('akima_nearly_collinear_generic_direction_skipped')
+        return judged
+    # (ii) drawn direction: complex step in the table
     h = 1e-30
     est = np.asarray(evalc(V.astype(complex) + 1j * h * D)).ravel().imag / h
     est_m = -np.asarray(evalc(V.astype(complex) - 1j * h * D)).ravel().imag / h
-    tol = TOL_K * EPS * A * Fd
+    tol = TOL_K * EPS * A * Fd * amp
     if not (np.abs(est - est_m) <= tol).all():
         # An abs() argument of the Akima weights is exactly zero at this table: the complex step takes the side
         # given by the sign of the imaginary part, i.e. the value is not differentiable in this direction.
@@ -404,7 +470,9 @@ def check_train(case, res, cls):
             finally:
                 p.set_complex_step_mode(False)
 
-        judged = judge_values(res, cls, 'MetaModelStructuredComp', method, evalf, J0, V, D, A, Fv, Fd, evalc)
+        rho = slope_rel_gap(grids, V) if method == 'akima' else np.inf
+        col = method == 'akima' and has_equal_slopes(grids, V)
+        judged = judge_values(res, cls, 'MetaModelStructuredComp', method, evalf, J0, V, D, A, Fv, Fd, evalc, rho, col)
         p.set_val('tab.f_train', V)
         p.run_model()
     except Exception as e:
@@ -551,7 +619,9 @@ def check_spline(case, res, cls):
                 full = Y.astype(values.dtype)
                 full[_v] = values
                 return evalrow(full)[_v]
-            judged += judge_values(res, cls, label, method, evalf, J0[v], Y[v], D[v], A, Fv, Fd, evalf)
+            rho = slope_rel_gap([case['xcp']], Y[v]) if method == 'akima' else np.inf
+            col = method == 'akima' and has_equal_slopes([case['xcp']], Y[v])
+            judged += judge_values(res, cls, label, method, evalf, J0[v], Y[v], D[v], A, Fv, Fd, evalf, rho, col)
         if case['kind'] == 'splinecomp':
             p.set_val('ivc.ycp', Y)
             p.run_model()
@@ -589,8 +659,6 @@ def check(case):
         if TOL_K * EPS * Amax > base.MAX_REL_TOL:
             return _discard(res, cls, 'ill-conditioned-grid')
         nonuni = any(not base._uniform(g) for g in grids)
-        if kind == 'train' and method == 'akima' and has_equal_slopes(grids, table_of(case)):
-            return _discard(res, cls, 'akima-not-differentiable-in-values-at-collinear-table')
         judged = check_table(case, res, cls) if kind == 'table' else check_train(case, res, cls)
         res.nontrivial = judged > 0 and (dim >= 2 or nonuni)
     else:
@@ -604,8 +672,6 @@ def check(case):
             if TOL_K * EPS * _spline_amp(method, xcp) > base.MAX_REL_TOL:
                 return _discard(res, cls, 'ill-conditioned-grid')
             nonuni = not base._uniform(xcp)
-            if method == 'akima' and any(has_equal_slopes([xcp], row) for row in case['y']):
-                return _discard(res, cls, 'akima-not-differentiable-in-values-at-collinear-table')
         else:
             nonuni = True
         judged = check_spline(case, res, cls)
@@ -723,9 +789,9 @@ def strategy():
             order = draw(st.sampled_from([2, 3, 4, 4]))
             ncp = draw(st.integers(order, order + 5))
             c['opts'] = {'order': order}
-            nint = draw(st.integers(2, 7))
+            nint = draw(st.sampled_from([2, 2, 3, 5, 7]))
             lo = draw(nice(-5.0, 5.0))
-            xi = sorted({float(lo + draw(nice(0.0, 4.0))) for _ in range(nint)} | {float(lo), float(lo + 4.0)})
+            xi = sorted({float(lo + draw(nice(0.0, 4.0))) for _ in range(nint - 2)} | {float(lo), float(lo + 4.0)})
             c['x_interp'] = xi
         else:
             nmin = base.MIN_POINTS[method]
